@@ -53,7 +53,7 @@ class C04(S4UCheck):
                     if r.chance(0.15):
                         ops.append(['obs_owner', name])
             plan['actors'].append(dict(id='a%d' % ai, host='h%d' % r.below(len(plan['hosts'])), ops=ops))
-        gen.knobs(plan, r)
+        gen.knobs(plan, r, walk_p=0.35)
         return plan
 
     def oracle(self, plan, res):
